@@ -43,6 +43,9 @@ func runC18(c *Ctx) {
 		}
 		key := f.Name
 		cons := c.Calls(f.SSA, Call("record.ConsumeEnvelope"))
+		if len(cons) != 1 && c18TypedReader(c, f, r.recType, r.idField, r.domainOK) {
+			continue
+		}
 		if len(cons) != 1 {
 			typed := c.Calls(f.SSA, Call("record.ConsumeTypedEnvelope"))
 			if len(typed) > 0 {
@@ -230,4 +233,98 @@ func c18DomainConst(c *Ctx, name string) (string, bool) {
 		return v, true
 	}
 	return c.ConstString("github.com/libp2p/go-libp2p/core/peer", name)
+}
+
+// c18TypedReader decides H1/H2 for a reader that consumes the envelope into a
+// record of its own (record.ConsumeTypedEnvelope, possibly in a helper shared
+// by the readers): that call checks signature and the record's domain but not
+// the sealed payload type, so the reader has to compare it itself. Reports
+// whether the reader has this form (and then emits the obligations).
+func c18TypedReader(c *Ctx, f *Fn, recType, idField, domainName string) bool {
+	sites := c.CallsInl(f.SSA, Call("record.ConsumeTypedEnvelope"), 2)
+	if len(sites) != 1 {
+		return false
+	}
+	st := sites[0]
+	key := f.Name
+	env := st.X
+	R := st.X.Args[1]
+	// the record consumed into is a fresh *recType built by the reader
+	fresh := false
+	if rr := strip(R); rr != nil {
+		t := ""
+		if rr.V != nil {
+			t = rr.V.Type().String()
+		}
+		fresh = (rr.Op == "complit" || rr.Op == "alloc" || strings.HasPrefix(rr.Op, "const")) && strings.HasSuffix(strings.TrimPrefix(t, "*"), "."+recType)
+		if _, isAlloc := rr.V.(*ssa.Alloc); isAlloc && strings.HasSuffix(t, "."+recType) {
+			fresh = true
+		}
+		if mi, isMI := rr.V.(*ssa.MakeInterface); isMI {
+			_, isAlloc := mi.X.(*ssa.Alloc)
+			fresh = isAlloc && strings.HasSuffix(mi.X.Type().String(), "."+recType)
+		}
+	}
+	c.Check(fresh, "C18.H2-domain-and-type", key+" › consume", st.Outer().Pos(), "the envelope is consumed into a fresh *"+recType+" of the reader's own", "the record the envelope is consumed into is not a fresh *"+recType+": "+abbreviate(R.String()))
+	// domain: that of the record type — its Domain method returns the expected constant (libp2p's own record is trusted)
+	if want, okc := c18DomainConst(c, domainName); okc {
+		okDom := true
+		if dm := c.Func(modelPkg, recType+".Domain"); dm != nil {
+			okDom = false
+			for _, b := range dm.SSA.Blocks {
+				if ret, ok := b.Instrs[len(b.Instrs)-1].(*ssa.Return); ok && len(ret.Results) == 1 {
+					x := c.RetX(ret, 0)
+					okDom = x.Op == "const" && x.Name == want
+				}
+			}
+		}
+		c.Check(okDom, "C18.H2-domain-and-type", key+" › domain", st.Outer().Pos(), "consumed under the record type's domain, the constant "+domainName, "the record type's Domain method does not return "+domainName)
+	} else {
+		c.Unk("C18.H2-domain-and-type", key+" › domain", st.Outer().Pos(), "domain constant "+domainName+" not found")
+	}
+	signerOf := Extract("0", Call("peer.IDFromPublicKey", Field("PublicKey", Extract("0", Is(env)))))
+	n := 0
+	for _, b := range f.SSA.Blocks {
+		ret, ok := b.Instrs[len(b.Instrs)-1].(*ssa.Return)
+		if !ok || len(ret.Results) != 2 || c.RetX(ret, 1).Op != "nil" {
+			continue
+		}
+		n++
+		k := key + " › success return"
+		_, g1 := c.GuardedB(b, EqNil(Extract("1", Is(env))), true)
+		c.Check(g1, "C18.H1-signer-compared", k+" › envelope verified", ret.Pos(), "dominated by ConsumeTypedEnvelope err == nil", "record returned although the envelope did not verify")
+		_, g2 := c.GuardedB(b, Call("bytes.Equal", Field("PayloadType", Extract("0", Is(env))), AnyCall("Codec", Is(R))), true)
+		rec := c.RetX(ret, 0)
+		sameRec := Same(strip(rec), strip(R)) || (strip(R) != nil && strip(rec) != nil && strip(R).Contains(func(y *X) bool { return Same(y, rec) }))
+		c.Check(g2 && sameRec, "C18.H2-domain-and-type", k+" › record type", ret.Pos(), "the envelope's sealed payload type is compared with the record's codec, and the record returned is the one consumed into", "the sealed payload type is not compared with the codec of the record returned: an envelope the provider signed for another payload type is accepted as this request")
+		// signer compared with the identity inside that record
+		okCmp, okDerived := false, false
+		for _, f2 := range c.FactsAt(b) {
+			m, ok := Match(Bin("==", Bind("s"), Field(idField, Bind("r"))), f2.Cond)
+			if !ok || !f2.Val {
+				continue
+			}
+			all := true
+			ls := c.Leaves(m["s"], ret)
+			for _, l := range ls {
+				if _, isS := Match(signerOf, l); !isS {
+					all = false
+				}
+			}
+			if all && len(ls) > 0 && (Same(strip(m["r"]), strip(rec)) || strip(R).Contains(func(y *X) bool { return Same(y, m["r"]) })) {
+				okCmp = true
+			}
+		}
+		_, okDerived = c.GuardedB(b, EqNil(Extract("1", Call("peer.IDFromPublicKey", Field("PublicKey", Extract("0", Is(env)))))), true)
+		if !okCmp {
+			c.Bad("C18.H1-signer-compared", k+" › signer == "+idField, ret.Pos(), "the request is returned without comparing the envelope's signer with the provider ID inside the request: any key can sign for any provider")
+			continue
+		}
+		c.Check(okDerived, "C18.H1-signer-compared", k+" › signer derived", ret.Pos(), "signer = IDFromPublicKey(envelope.PublicKey), error checked", "signer derivation error ignored")
+		c.OK("C18.H1-signer-compared", k+" › signer == "+idField, ret.Pos(), "dominated by signer == "+idField+" of the record being returned")
+	}
+	if n == 0 {
+		c.Unk("C18.H1-signer-compared", key+" › success return", f.SSA.Pos(), "no success return")
+	}
+	return true
 }
